@@ -93,7 +93,7 @@ EXHAUSTIVE = {
 TRUSTED = [
     "CPython urlsplit + SplitResult accessors (run, not modelled): in particular that re-parsing the printed canonical URL gives its components back (evaluated per case by the driver line c03_bridge: Reparses(canonComps(parse u), parse(canonicalize_url(u)))) and that the parse of u.lower() is the component-wise lower-casing of the parse of u (line c03_lower)",
     "CPython idna codec (PunyLaws hypothesis; per-run table)",
-    "str.lower()/str.strip() outside the model alphabet (DESIGN §4): fingerprint lines are compared only for URLs inside it, the oracle runs on all",
+    "str.lower()/str.strip() outside the model alphabet (DESIGN §4): fingerprint lines are compared only for URLs inside it, the oracle runs on all; that the three functions map the letter case of a non-ASCII host compatibly is the per-run law HostCase (harness/c03_hostcase.py)",
     "the platform_aware branch (facebook / youtube parsers, C19) is not modelled: the harness ships the rewritten URL's components",
     "Lean kernel, lake build, the native driver",
 ]
